@@ -441,7 +441,7 @@ fn main() {
         let mut k = 0usize;
         cases.retain(|c| {
             k += 1;
-            c.known.is_some() || (k - 1) % step == 0
+            c.known.is_some() || c.family == "range-memory-coincidence" || (k - 1) % step == 0
         });
     }
     println!("{} programs generated in {:.1?}", cases.len(), start.elapsed());
